@@ -3353,7 +3353,7 @@ class Positions(Monitor):
                 yield {"base": rng.choice(bases), "steps": [{"op": "ts.keep_intervals", "args": {"iv": iv}}]}
             for w in WINDOWS:
                 for mode in ("site", "branch", "node"):
-                    for stat in ONE_WAY:
+                    for stat in ONE_WAY if tier != "quick" else ONE_WAY[:2]:
                         yield {"base": rng.choice(bases), "steps": [
                             {"op": "ts.stat1", "args": {"stat": stat, "sets": [["0", "1"]], "windows": w, "mode": mode}},
                             {"op": "probe.ts", "args": {}}]}
@@ -3388,6 +3388,8 @@ class Stats(Monitor):
                         {"op": "ts.stat1", "args": {"stat": stat, "sets": sets, "mode": mode}, "expect": exp},
                         {"op": "probe.ts", "args": {}}]}
                 for stat in MULTI_WAY:
+                    if tier == "quick" and mode != "site" and stat not in ("divergence", "f4"):
+                        continue
                     yield {"base": rng.choice(bases), "steps": [
                         {"op": "ts.statk", "args": {"stat": stat, "sets": sets, "mode": mode}, "expect": "any"}]}
         four = [["0"], ["1"], ["0", "1"], ["1", "0"]]
@@ -3460,7 +3462,7 @@ class Tables(Monitor):
         descs = valid_bases(rng, 5 if tier == "quick" else 20, max_sites=4, migrations=True)
         bases = [base_valid(rng, d) for d in descs]
         T = [{"op": "probe.tc", "args": {}}]
-        idsyms = ID_SYMS + ["-n", "-n-1"] + (ID_SYMS_X if tier != "quick" else ["2^31", "2^32", "0.5", "none", "true"])
+        idsyms = ID_SYMS + ["-n", "-n-1"] + (ID_SYMS_X if tier != "quick" else ["2^32", "0.5"])
         for t in TABLES:
             for sym in idsyms:
                 for opn in ("table.getitem", "table.ll_get_row", "table.truncate", "table.setitem"):
@@ -3518,7 +3520,7 @@ class Tables(Monitor):
                 for ln in ("n-1", "n+1", "2n", "n") if tier != "quick" else ("n-1", "n+1", "n"):
                     for how in ("set", "append", "fromdict"):
                         for keep in ("required", "all"):
-                            if tier == "quick" and keep == "all" and how != "set":
+                            if tier == "quick" and keep == "all" and (how != "set" or ln != "n+1"):
                                 continue
                             yield {"base": rng.choice(bases), "steps": [
                                 {"op": "table.columns_min_len", "args": {"table": t, "col": col, "len": ln, "how": how, "keep": keep}},
@@ -3969,7 +3971,7 @@ class Sizes(Monitor):
             shapes.append({"kind": "shape", "shape": "intervals", "n": 2, "m": n // 2 if n % 2 == 0 else n})
             exact = n & (n - 1) == 0                 # the power of two itself gets the full menu in quick
             if tier == "quick" and not exact:
-                shapes = [b for b in shapes if b["shape"] in ("star", "intervals")][:3]
+                shapes = [b for b in shapes if b["shape"] in ("star", "intervals")][:2]
             elif tier == "quick":
                 shapes = [b for b in shapes if not (b["shape"] == "two_level" and b["n"] == n)]
             for base in shapes:
